@@ -102,6 +102,9 @@ namespace vh
    struct named {};   // generated grammars derive their named rules from this (no members; rule_t comes from the first base)
    template< typename R > inline constexpr bool is_named = std::is_base_of_v< named, R >;
 
+   struct mustif {};  // generated grammars derive from this the named rules for which the must_if control families (ctl4/ctl5) have a message
+   template< typename R > inline constexpr bool is_mustif = std::is_base_of_v< mustif, R >;
+
    struct foreign_exn { int tag; };                       // a type unrelated to std::exception
    template< int Tag > struct typed_exn { };              // for try_catch_type_*
 
@@ -196,6 +199,7 @@ namespace vh
    template< typename T, typename = void > inline constexpr bool is_rule = false;
    template< typename T > inline constexpr bool is_rule< T, std::void_t< typename T::rule_t, typename T::subs_t > > = true;
 
+   inline std::vector< std::string >& rof_lines() { static std::vector< std::string > v; return v; }
    template< typename R > int dump();
    template< typename... Ts > std::vector< int > dump_subs( type_list< Ts... > ) { return { dump< Ts >()... }; }
    template< typename T > struct raise_target { using type = void; };
@@ -231,6 +235,9 @@ namespace vh
          if constexpr( I::has_error_message< R > ) {
             t.msgs[ id ] = std::string( "M" ) + R::error_message;
          }
+         if constexpr( is_mustif< R > ) {
+            rof_lines().push_back( "ROF " + std::to_string( id ) );
+         }
       }
       else {
          t.lines[ id ] = std::to_string( id ) + " 0 0 0 | opaque";
@@ -256,6 +263,9 @@ namespace vh
          std::printf( "NAME %zu %s %s\n", i, hex( t.names[ i ] ).c_str(), hex( t.msgs[ i ] ).c_str() );
       }
       for( const auto& l : act_lines() ) {
+         std::printf( "%s\n", l.c_str() );
+      }
+      for( const auto& l : rof_lines() ) {
          std::printf( "%s\n", l.c_str() );
       }
    }
@@ -478,6 +488,40 @@ namespace vh
    template< typename R > struct ctl3 : trace_control< 3, false, R > {};
    template< typename R > struct ctl0 : obs_control< 0, true, R > {};
    template< typename R > struct ctl1 : obs_control< 1, false, R > {};
+   // families 4 and 5: must_if< errors >::control over the tracing observers.  errors has a message ("mustif") exactly for the
+   // rules marked vh::mustif, so for those Control< Rule >::failure() raises (must_if.hpp) and must< Rule > raises with that
+   // message.  The wrappers only add log records in the model's convention (F before the raise out of failure(), R before a
+   // raise); everything else is must_if.hpp's own code.
+   struct mi_errors
+   {
+      template< typename Rule >
+      static constexpr const char* message = is_mustif< Rule > ? "mustif" : nullptr;
+   };
+   template< typename R > struct mi_base4 : trace_control< 4, true, R > {};
+   template< typename R > struct mi_base5 : trace_control< 5, false, R > {};
+   template< int Ctl, template< typename... > class Base, typename R >
+   struct mustif_control : must_if< mi_errors, Base, false >::template control< R >
+   {
+      using mi = typename must_if< mi_errors, Base, false >::template control< R >;
+      template< typename In, typename... S > static void failure( const In& in, S&&... st )
+      {
+         if constexpr( is_mustif< R > ) {
+            ev_hook( 'F', Ctl, index_of< R >(), in.position() );
+         }
+         mi::failure( in, st... );
+      }
+      template< typename In, typename... S > [[noreturn]] static void raise( const In& in, S&&... st )
+      {
+         if constexpr( is_mustif< R > ) {
+            ev_hook( 'R', Ctl, index_of< R >(), in.position() );
+         }
+         mi::raise( in, st... );
+      }
+   };
+   template< typename R > struct ctl4 : mustif_control< 4, mi_base4, R > {};
+   template< typename R > struct ctl5 : mustif_control< 5, mi_base5, R > {};
+   template<> struct ctl_id< ctl4 > { static constexpr int value = 4; };
+   template<> struct ctl_id< ctl5 > { static constexpr int value = 5; };
    template<> struct ctl_id< ctl0 > { static constexpr int value = 0; };
    template<> struct ctl_id< ctl1 > { static constexpr int value = 1; };
    template<> struct ctl_id< ctl2 > { static constexpr int value = 2; };
